@@ -437,7 +437,7 @@ impl<'r> Gen<'r> {
         let quotes = if self.rng.chance(1, 6) { "'''''" } else { "'''" };
         let n = self.rng.range(1, 4);
         let mut lines = vec![];
-        const L: &[&str] = &["some text", "", "  indented more", "select * from t", "it's 'quoted'", "x", "tab\there", "trailing  "];
+        const L: &[&str] = &["some text", "", "  indented more", "select * from t", "it's 'quoted'", "x", "tab\there", "trailing  ", "   ", "\t"];
         for _ in 0..n {
             lines.push(self.rng.pick(L).to_string());
         }
@@ -563,6 +563,43 @@ impl<'r> Gen<'r> {
     fn args(&mut self, d: u32, allow_anon: bool) {
         self.op_tight("(");
         let n = if d >= self.o.max_expr_depth { self.rng.below(2) } else { self.rng.below(4) };
+        if self.rng.chance(1, 40) {
+            // two comparisons in neighbouring arguments that could be read as a generic argument list:
+            //   Foo(X < Y, U > -V)   Foo(X < Y, U > (V))   Foo(X < Y, U > V)
+            self.feat("ambiguous-generic-or-comparison");
+            self.plain_ident();
+            self.op("<");
+            self.plain_ident();
+            self.op(",");
+            self.plain_ident();
+            self.op(">");
+            match self.rng.below(5) {
+                0 => {
+                    let i = self.op("-");
+                    self.p.toks[i].tight_right = true;
+                    self.number_small();
+                }
+                1 => {
+                    let i = self.op("+");
+                    self.p.toks[i].tight_right = true;
+                    self.plain_ident();
+                }
+                2 => {
+                    self.op("(");
+                    self.plain_ident();
+                    self.op(")");
+                }
+                3 => {
+                    self.kw("not");
+                    self.plain_ident();
+                }
+                _ => {
+                    self.plain_ident();
+                }
+            }
+            self.op(")");
+            return;
+        }
         for k in 0..n {
             if k > 0 {
                 self.op(",");
@@ -864,12 +901,15 @@ impl<'r> Gen<'r> {
                     self.push("Create", GK::Ident);
                     self.op_tight("(");
                     let saved = std::mem::replace(&mut self.o.anon_in_headers, self.o.anon_in_raise);
-                    let has_anon = self.header(|g| g.expr(1));
+                    let with_set = self.rng.chance(1, 3);
+                    let has_anon = self.header(|g| {
+                        g.expr(1);
+                        if with_set {
+                            g.op(",");
+                            g.set_lit(2);
+                        }
+                    });
                     self.o.anon_in_headers = saved;
-                    if self.rng.chance(1, 3) {
-                        self.op(",");
-                        self.set_lit(2);
-                    }
                     self.op(")");
                     if has_anon {
                         self.p.raise_anon_stmts.push((first, self.p.toks.len() - 1));
@@ -1382,7 +1422,9 @@ impl<'r> Gen<'r> {
             let m = self.new_name("T");
             self.mark_line_start(m);
             self.p.blocks[bi].items.push(m);
-            if self.o.allow_generics && self.rng.chance(1, 6) {
+            let rhs_kind = self.rng.below(12);
+            // only classes, records, interfaces and procedural types can be generic
+            if self.o.allow_generics && matches!(rhs_kind, 0..=4 | 6 | 8) && self.rng.chance(1, 4) {
                 self.feat("generic-type-decl");
                 let i = self.op("<");
                 self.p.toks[i].tight_left = true;
@@ -1396,7 +1438,7 @@ impl<'r> Gen<'r> {
                 self.p.toks[i].tight_left = true;
             }
             self.op("=");
-            match self.rng.below(12) {
+            match rhs_kind {
                 0..=4 => self.class_type(m),
                 5 => {
                     self.feat("enum-type");
